@@ -40,6 +40,7 @@ type binScenario struct {
 	ReadOnly bool
 	Holder   bool   // a competing process holds the lock of f1 (-> lock timeout path)
 	Out      string // --out file name
+	Linked   []string // tables that are symbolic links to files kept in a directory next to the repository
 	Preload  string // contents of $HOME/.csvqrc (statements run before the command line is applied; cwd = parent of repo)
 }
 
@@ -92,6 +93,15 @@ func runScenario(r *core.Run, sc binScenario, env []string, keep bool) (dir stri
 	repo := filepath.Join(dir, "repo")
 	_ = os.MkdirAll(repo, 0755)
 	writeTables(repo, sc.Tables)
+	for _, n := range sc.Linked {
+		_ = os.MkdirAll(filepath.Join(dir, "store"), 0755)
+		if err := os.Rename(filepath.Join(repo, n), filepath.Join(dir, "store", n)); err != nil {
+			core.Fail("link table: %v", err)
+		}
+		if err := os.Symlink(filepath.Join("..", "store", n), filepath.Join(repo, n)); err != nil {
+			core.Fail("link table: %v", err)
+		}
+	}
 	tracef := filepath.Join(dir, "trace.ndjson")
 	if sc.Preload != "" {
 		_ = os.WriteFile(filepath.Join(dir, ".csvqrc"), []byte(sc.Preload), 0644)
@@ -269,6 +279,9 @@ func crashScenarios(thorough bool) []binScenario {
 			Prog: []sched.Op{{Op: "update", F: "f1"}, {Op: "commit", F: "-"}, {Op: "update", F: "f1"}, {Op: "commit", F: "-"}}},
 		{Name: "empty", Tables: map[string]string{"f1.csv": "n\n"}, SQL: "INSERT INTO `f1.csv` VALUES (1);\nCOMMIT;\n",
 			Prog: []sched.Op{{Op: "update", F: "f1"}, {Op: "commit", F: "-"}}},
+		// the table's path is a symbolic link: the path must hold the old or the new contents at every instant all the same
+		{Name: "symlink", Tables: map[string]string{"f1.csv": rowsCSV(600, 1234567)}, Linked: []string{"f1.csv"},
+			SQL: "UPDATE `f1.csv` SET n = n + 1;\nCOMMIT;\n"},
 		// a table file of 0 bytes that receives more than one output buffer of rows (from a 700-row table)
 		{Name: "zerobytes", Tables: map[string]string{"f1.csv": "", "f2.csv": rowsCSV(700, 1234567)},
 			SQL: "ALTER TABLE `f1.csv` ADD (n);\nINSERT INTO `f1.csv` SELECT n FROM `f2.csv`;\nCOMMIT;\n"},
